@@ -81,6 +81,10 @@ def handle (t : St) (j : Json) : St × Json :=
     | some op =>
       let (t', o) := step t op
       (t', Json.mkObj [("out", outStr o), ("tree", treeJson t')])
+  | "crossids" =>   -- identifier policy of a copy into another workspace
+    (t, ofList ((crossIds ((jarr j "used").map asNat)
+          ((jarr j "pairs").map fun p => match (asArr p).map asNat with | [a, b] => (a, b) | _ => (0, 0))).map
+          fun n => Json.num (JsonNumber.fromNat n)))
   | "file" => (t, fileJson (fileOf t))
   | "reload" =>     -- the model's own round trip: load (fileOf t)
     (t, match load (fileOf t) with
